@@ -472,7 +472,10 @@ def judge(c, e, mode, must=1):
         bad.append("session view changed")
     if c.get("sel") == "CHANGED" and c.get("st") not in (None, "0"):
         bad.append("selection state changed (current position / configuration)")
-    if c.get("sel") == "UNSET" and c.get("st") not in (None, "0"):
+    if c.get("sel") == "UNSET" and c.get("st") not in (None, "0") and not NAVIGATION.match(e["fn"]):
+        # a FAILED navigation call that leaves NO position is the specified fail-safe (property C11: "a failed navigation reports
+        # an error and never leaves the position silently on a different node"); the cursor is not part of C12's session view.
+        # A position that MOVED (sel=CHANGED) stays a violation for them, and UNSET / CHANGED for every other entry point.
         bad.append("selection state changed: the current position is unset after the call")
     if c.get("tree") not in ("same",):
         bad.append("file content %s" % c.get("tree"))
@@ -545,10 +548,6 @@ def finding_key(fn, var, what, state, F, claims, bad_long=frozenset(), doc="Writ
             return "cgi_get_zcoorGC:Z:container-created-before-validation"
         if "cgi_get_particle_pcoorPC" in cs:
             return "cgi_get_particle_pcoorPC:P:container-created-before-validation"
-    if any("position is unset" in w for w in what) and re.match(r"cg_go(to|rel|path|list)", fn) and not accepted:
-        # every failing branch of cgi_set_posit / cgi_update_posit executes `posit = 0`: a failed navigation leaves NO position
-        # (a position that MOVED elsewhere is not covered by this key)
-        return "cgi_set_posit:position:changed-by-failed-goto"
     if changed and not accepted and fn in ZGC_CREATORS and not any("file content" in w for w in what):
         # the view changed but not the file: the empty ZoneGridConnectivity_t container of a zone that has none (bare12, unstr,
         # Zone2 of rich12) was created and counted before the arguments were checked
@@ -564,6 +563,9 @@ TOLERANT_COUNTERS = {"cg_ncoords", "cg_nholes", "cg_nconns", "cg_n1to1", "cg_n1t
 
 
 # ------------------------------------------------------------------------------------------------ selection of cases
+NAVIGATION = re.compile(r"cg_(goto|gorel|gopath|golist)(_f08|_f)?$")      # the entry points that set the cursor
+
+
 SELECTORS = re.compile(r"zconn|cg_goto|cg_gorel|cg_gopath|cg_golist|cg_where|cg_grid_|cg_ngrids")
 
 
@@ -727,8 +729,9 @@ def run(ck):
                       "file-level operations (cg_open, cg_close, cg_save_as, cg_is_cgns, cgio_open_file, cgio_close_file, cgio_compress_file, cgio_copy_file, "
                       "library configuration / exit) are outside the domain; ADF / ADFH internals are reached only dynamically through cgio_*",
                       "the current FILE pointer (cg) is navigation state, not session view: an invalid handle clears it and later node-context calls "
-                      "fail with 'no current CGNS file open'; the current POSITION (cg_where), the current ZoneGridConnectivity_t (cg_zconn_get), "
-                      "cg_get_compress / cg_get_file_type / cg_get_cgio ARE compared (no public getter exists for the rind-index and search-path "
+                      "fail with 'no current CGNS file open'; the current POSITION (cg_where; for cg_goto / cg_gorel / cg_gopath / cg_golist a failed call "
+                      "may leave NO position -- the fail-safe property C11 specifies -- but not another one), the current ZoneGridConnectivity_t "
+                      "(cg_zconn_get), cg_get_compress / cg_get_file_type / cg_get_cgio ARE compared (no public getter exists for the rind-index and search-path "
                       "settings); the entry points that reconfigure the library (cg_configure, cg_set_*) are static-only"]
     ck.cov["rule"] = ("every callable public entry point (stub generated from the prototype table) x every argument position x every invalid class of its "
                       "kind (handle: closed / never issued / 0 / -1; index: 0 / -1 / count+1 / INT_MAX; name: empty / 33 / 1000 characters; enum: -1 / "
